@@ -787,6 +787,13 @@ impl<'a> Ctx<'a> {
                     };
                     values.push(Attr { name: ["sv", "si"][i % 2].into(), val: AttrVal::Bind(v) });
                 }
+                // common attributes of the slot element itself
+                if self.r.chance(0.25) {
+                    values.push(Attr { name: "id".into(), val: AttrVal::Bind(self.top_expr()) });
+                }
+                if self.r.chance(0.15) {
+                    values.push(Attr { name: "data:k".into(), val: AttrVal::Bind(self.top_expr()) });
+                }
                 Node::Slot { name, values }
             }
             _ => Node::Text(self.text_parts()),
@@ -869,6 +876,11 @@ impl<'a> Ctx<'a> {
                     let mut a = vec![];
                     if slot != AttrVal::None {
                         a.push(Attr { name: "slot".into(), val: slot });
+                    }
+                    if self.r.chance(0.12) {
+                        // a slot of the host forwarded into a slot of the child
+                        children.push(Node::Slot { name: if self.r.chance(0.5) { AttrVal::Static("q".into()) } else { AttrVal::None }, values: a });
+                        continue;
                     }
                     // sometimes the slotted content is a virtual node
                     let tag = if self.r.chance(0.3) { "block" } else { "view" };
